@@ -420,7 +420,13 @@ func sortedPairStrings(pairs map[*Ident]Expr) []string {
 	for k, arg := range pairs {
 		kwargs = append(kwargs, p{k: k.String(), v: arg.String()})
 	}
-	sort.Slice(kwargs, func(i, j int) bool { return kwargs[i].k < kwargs[j].k })
+	sort.Slice(kwargs, func(i, j int) bool {
+		// NOTE: compare values too otherwise order of duplicated names is random
+		if kwargs[i].k == kwargs[j].k {
+			return kwargs[i].v < kwargs[j].v
+		}
+		return kwargs[i].k < kwargs[j].k
+	})
 
 	sortedStrings := []string{}
 	for _, kwarg := range kwargs {
